@@ -41,7 +41,7 @@ import (
 )
 
 func init() {
-	evid.Register(&evid.Check{ID: "C12", Level: "exploration", Run: run, QuickBudget: 150 * time.Second, ThoroughBudget: 20 * time.Minute})
+	evid.Register(&evid.Check{ID: "C12", Level: "exploration", Run: run, QuickBudget: 300 * time.Second, ThoroughBudget: 20 * time.Minute})
 	evid.RegisterReplay("C12", replay)
 }
 
